@@ -8,7 +8,7 @@ import os
 D = "/verif/coq/Properties"
 IMPORTS = ("From CB Require Import Spec Unstable.\nFrom Coq Require Import Permutation.\n"
            "From CBP Require Import Step RefDefs C02Lemmas Arith AbsLemmas AllOps FaultDefs FaultPrims FaultDropA FaultDropB FaultUser\n"
-           "     Iters DrainP ExtendIo CmpHash Ctors PhysMoves MoreOps UnstableEq Access Views RefTruncate FillExtend FaultFrame SpecCorollaries ValueCorollaries FaultGeneric FaultHistory%s.\n")
+           "     Iters DrainP ExtendIo CmpHash Ctors PhysMoves MoreOps UnstableEq Access Views RefTruncate FillExtend FaultFrame SpecCorollaries ValueCorollaries FaultGeneric FaultHistory FaultConserve FaultDebugOps%s.\n")
 
 P = {}
 
@@ -202,6 +202,15 @@ P["C06"] = ("""C06 — a panic in user code (Clone, closure, iterator, eq, cmp, 
   forall (ops : list op) (rs : list (outcome out)) (s : cbuf) (w : world) (L : fledger) (fk : fkind) (k : Z),
   fault_run s0 w0 ops rs s w L -> fault w0 = Some (fk, k) -> looks_only fk = true ->
   Permutation (abs s ++ fl_caller L ++ fl_destroyed L) (fl_entered L)""", "fault_history_no_leak_looks"),
+    ("C06_history_nothing_lost", """forall (s0 : cbuf) (w0 : world),
+  WF s0 -> plan_nonneg (fault w0) -> NoDup (FaultDefs.ids (abs s0)) ->
+  (forall e : elem, In e (abs s0) -> eid e < next_id w0) ->
+  forall (ops : list op) (rs : list (outcome out)) (s : cbuf) (w : world) (L : fledger) (fk : fkind) (k : Z),
+  fault_run s0 w0 ops rs s w L -> fault w0 = Some (fk, k) -> fk <> FDrop ->
+  Permutation (abs s ++ fl_caller L ++ fl_destroyed L) (fl_entered L)""", "fault_history_conserving"),
+    ("C06_all_pairs", """forall (o : op) (fk : fkind),
+  ledger_op o = true -> may_call o fk = true -> covered' o fk = true ->
+  fault_safe_when (fun s : cbuf => nopanic_spec o s /\\ plain_pre o) o fk""", "fault_collect_all"),
     ("C06_frame", """forall o fk s w k,
   may_call o fk = false -> fault w = Some (fk, k) ->
   exec o s w =
